@@ -267,6 +267,16 @@ theorem gov_endblock_escrow_total_no_spend (ops : List Op) (hs : ops.all opSpend
     (run govEscrowCode ops init).halted = false :=
   (gov_escrow_no_spend_never_halts govEscrowCode add_deposit_code_facts ops hs).1
 
+/-- **gov end-blocker totality for the code as it is (no escrow check in the pass branch) — PARTIAL**: the refunds and burns of
+every history succeed under the hypothesis that the messages of no passed proposal leave the gov account with less than the open
+deposits.  Missing for the full statement: that hypothesis is NOT guaranteed by the code — `gov_escrow_spend_halts_unguarded`
+below is a history that violates it (known finding "gov escrow spent by a proposal message", fixes/C07-gov-escrow-spend.md);
+with the proposed repair it becomes `gov_escrow_guarded_never_halts`, without hypothesis. -/
+theorem gov_endblock_escrow_total_partial (ops : List Op) (h : PassesKeepCovered govEscrowCode ops init) :
+    (run govEscrowCode ops init).halted = false ∧ total (run govEscrowCode ops init).deps ≤ (run govEscrowCode ops init).bal :=
+  let r := run_inv_partial (c := govEscrowCode) (by decide) ops init inv_init h
+  ⟨r.2, r.1⟩
+
 /-- a refund fails exactly when the account holds less than the deposits of that proposal — the order in which the store
 walk meets the records is irrelevant -/
 theorem gov_refund_fails_iff (pid : Nat) (d : List (Nat × Nat)) (b : Nat) :
@@ -298,6 +308,14 @@ example : (run { addDepositRefusesGov := false, passChecksEscrow := true } [.dep
 -- a spend that leaves the escrow covered is committed (the account holds 300 more than the deposits)
 example : (run { addDepositRefusesGov := true, passChecksEscrow := true } [.deposit 1 100, .deposit 2 1000, .pass 1 [.payIn 300, .spend 200], .settle 2] init) = { bal := 100, deps := [], halted := false } := by decide
 example : ([Op.deposit 1 5, .pass 1 [.noop, .payIn 3, .govDeposit 2 1], .settle 2] : List Op).all opSpendFree = true := by decide
+-- the hypothesis of the partial theorem holds for a history whose passed proposal spends only a surplus …
+example : PassesKeepCovered { addDepositRefusesGov := true, passChecksEscrow := false }
+    [.deposit 1 100, .deposit 2 1000, .pass 1 [.payIn 300, .spend 200], .settle 2] init := by
+  simp [PassesKeepCovered, step, init, settle, without, passMsgs, execMsgs, execMsg, total]
+-- … and fails for the witness history (the spend reaches into proposal 2's deposit)
+example : ¬ PassesKeepCovered { addDepositRefusesGov := true, passChecksEscrow := false }
+    [.deposit 1 10000, .deposit 2 1000, .pass 1 [.spend 1000], .settle 2] init := by
+  simp [PassesKeepCovered, step, init, settle, without, passMsgs, execMsgs, execMsg, total]
 end escrow
 
 end FxVerif.Props.C07
